@@ -94,9 +94,22 @@ func runC03(c *Ctx) {
 		})
 		r.Check("R03.1", FuncName(fn), "every line is drawn by that one emitter", fn.Pos(), bad == 0 && n >= 6, fmt.Sprintf("%d emitter calls, %d on another emitter", n, bad))
 	}
+	// the widths may be made and filled by a helper that returns them
+	var widthsBind map[*ssa.Parameter]ssa.Value
+	if wc, isCall := widths.(*ssa.Call); isCall {
+		if hms, h := returnedMake(wc); hms != nil {
+			widths = hms
+			widthsBind = map[*ssa.Parameter]ssa.Value{}
+			for k, a := range wc.Call.Args {
+				if k < len(h.Params) {
+					widthsBind[h.Params[k]] = a
+				}
+			}
+		}
+	}
 	if ms0, ok := widths.(*ssa.MakeSlice); ok {
 		ns := 0
-		for _, site := range sliceStoreSites(ms0, nil, 0) {
+		for _, site := range sliceStoreSites(ms0, widthsBind, 0) {
 			{
 				st, ia, ms := site.St, site.IA, site.Slice
 				fn := site.Fn
